@@ -114,8 +114,15 @@ func Check_Step() {
 		}
 		f.active, f.inactive = ticks("active"), ticks("inactive")
 		sx.Assert(a.VerifSetDeadlines(f.key.FlowKey(), T0.Add(f.active), T0.Add(f.inactive)), "set-deadlines")
-		f.ready = sx.Bool("ready")
-		f.retries = sx.Range("retries", 0, intermediate.MaxRetries)
+		if i < 2 {
+			f.ready = sx.Bool("ready")
+			f.retries = sx.Range("retries", 0, intermediate.MaxRetries)
+		} else {
+			// a third flow (thorough tier) adds the orderings between three deadlines;
+			// its own state is fixed (ready, no retries used, callback succeeds) to keep
+			// the product of cases within reach
+			f.ready = true
+		}
 		sx.Assert(a.VerifSetFlowState(f.key.FlowKey(), f.ready, f.retries), "set-state")
 		fl[i] = f
 	}
@@ -149,7 +156,11 @@ func Check_Step() {
 		sx.Reach("record")
 
 	case 1: // expiry scan, callback failing on a chosen subset of keys
-		failMask := sx.Choose("failingKeys", 1<<uint(n))
+		nf := n
+		if nf > 2 {
+			nf = 2
+		}
+		failMask := sx.Choose("failingKeys", 1<<uint(nf))
 		var called []int
 		err := a.ForAllExpiredFlowRecordsDo(func(key intermediate.FlowKey, r *intermediate.AggregationFlowRecord) error {
 			for i := range fl {
